@@ -53,6 +53,9 @@ type Case struct {
 	Client wsx.Config `json:"client"`
 	Server wsx.Config `json:"server"`
 	Msgs   []Msg      `json:"msgs"`
+	// First: sizes of the messages the server sends right after Upgrade, before the client has
+	// read the handshake response (they share the transport read with the response)
+	First []int `json:"first,omitempty"`
 }
 
 func (m Msg) payload() []byte {
@@ -86,7 +89,7 @@ type sent struct {
 }
 
 type stats struct {
-	multiFrame, len16, len64, compressed, partial, prepared, jsonAPI, readFrom bool
+	multiFrame, len16, len64, compressed, partial, prepared, jsonAPI, readFrom, serverFirst bool
 }
 
 func write(c *websocket.Conn, m Msg, p []byte, pm *websocket.PreparedMessage) error {
@@ -181,7 +184,15 @@ func read(c *websocket.Conn, m Msg) (int, []byte, error) {
 }
 
 func runCase(c Case) (st stats, err error) {
-	p, err := wsx.NewPair(c.Client, c.Server)
+	firstPayload := func(i int) []byte { return rtmpx.Fill(c.First[i], uint64(i)+0x51) }
+	p, err := wsx.NewPairHook(c.Client, c.Server, func(server *websocket.Conn) error {
+		for i := range c.First {
+			if e := server.WriteMessage(websocket.BinaryMessage, firstPayload(i)); e != nil {
+				return fmt.Errorf("server's first message %d: %v", i, e)
+			}
+		}
+		return nil
+	})
 	if err != nil {
 		return st, fmt.Errorf("handshake: %v", err)
 	}
@@ -192,6 +203,15 @@ func runCase(c Case) (st stats, err error) {
 	conns := [2]*websocket.Conn{p.Client, p.Server}
 	var log [2][]sent
 	var pings [2][][]byte
+	for i := range c.First {
+		want := firstPayload(i)
+		log[1] = append(log[1], sent{websocket.BinaryMessage, want})
+		gt, gp, e := p.Client.ReadMessage()
+		if e != nil || gt != websocket.BinaryMessage || !bytes.Equal(gp, want) {
+			return st, fmt.Errorf("message %d sent by the server right after the handshake: client got type %d, %d bytes, err %v (want %d bytes)", i, gt, len(gp), e, len(want))
+		}
+		st.serverFirst = true
+	}
 	for i, m := range c.Msgs {
 		s, r := conns[m.From], conns[1-m.From]
 		switch m.Comp {
@@ -337,6 +357,9 @@ func effWriteBuf(c wsx.Config, server bool) int {
 func genCase(t *rapid.T) Case {
 	ck, sk := rapid.IntRange(0, 3).Draw(t, "ccomp") > 0, rapid.IntRange(0, 3).Draw(t, "scomp") > 0
 	c := Case{Client: genConfig(t, ck), Server: genConfig(t, sk)}
+	if rapid.IntRange(0, 3).Draw(t, "first") == 0 {
+		c.First = rapid.SliceOfN(rapid.SampledFrom([]int{0, 1, 125, 126, 300, 5000}), 1, 3).Draw(t, "firstsizes")
+	}
 	n := rapid.IntRange(1, 10).Draw(t, "nmsg")
 	for i := 0; i < n; i++ {
 		m := Msg{From: rapid.IntRange(0, 1).Draw(t, "from"), Type: rapid.IntRange(1, 2).Draw(t, "type"), Fill: rapid.Uint64().Draw(t, "fill"),
@@ -415,7 +438,7 @@ var recSession = ev.New(prop, "sessions",
 		"set between messages, pings interleaved, read through ReadMessage / NextReader with drawn read sizes / ReadJSON; oracle: peer receives the same (type,payload) sequence AND each direction's sniffed bytes "+
 		"pass the strict RFC 6455/7692 parser and reassemble/inflate to what was written AND the handshake response carries the RFC accept key/extension parameters; "+
 		"non-trivial = a multi-frame or compressed message, a 16/64-bit length, or partial writes").
-	Require("multi-frame", "len16", "len64", "compressed", "partial-writes", "prepared", "json", "read-from", "negotiated", "not-negotiated")
+	Require("multi-frame", "len16", "len64", "compressed", "partial-writes", "prepared", "json", "read-from", "negotiated", "not-negotiated", "server-speaks-first")
 
 func TestSessions(t *testing.T) {
 	ev.Rapid(t, "sessions", 5000, 100000, func(t *rapid.T) {
@@ -441,6 +464,7 @@ func TestSessions(t *testing.T) {
 		add(st.prepared, "prepared")
 		add(st.jsonAPI, "json")
 		add(st.readFrom, "read-from")
+		add(st.serverFirst, "server-speaks-first")
 		add(c.Client.Compression && c.Server.Compression, "negotiated")
 		add(!(c.Client.Compression && c.Server.Compression), "not-negotiated")
 		recSession.Case(nt, ev.Hash(c), cl, func() any { return brief(c) })
